@@ -10,4 +10,6 @@ def main (args : List String) : IO UInt32 := do
   | ["sched"] => Driver.SchedC.main; return 0
   | ["sessin"] => Driver.SessInC.mainS; return 0
   | ["listener"] => Driver.SessInC.mainL; return 0
+  | ["fec"] => Driver.FecC.main; return 0
+  | ["autotune"] => Driver.AutoTuneC.main; return 0
   | _ => IO.eprintln "usage: kcpdriver <component>"; return 2
